@@ -7,7 +7,7 @@
 (*   - the Markov equivalence class of E (all DAGs with the same skeleton  *)
 (*     and v-structures, DagLib!IEquivalent) -- the pairs on which BDeu,   *)
 (*     BIC and AIC must agree.                                             *)
-(* Lemmas: equivalence classes partition the DAGs; equivalent DAGs have    *)
+(* Lemmas: equivalent DAGs have                                            *)
 (* the same number of edges (so the BDs graph prior is class-invariant)    *)
 (* and the same d-separation statements (n <= 3 by default: SameDSepMaxN). *)
 (***************************************************************************)
@@ -16,24 +16,29 @@ CONSTANTS MaxN, SameDSepMaxN
 Tokens == <<"v0", "v1", "v2", "v3", "v4">>
 NodeSet(n) == {Tokens[i] : i \in 1..n}
 
-VARIABLES n, E
-vars == <<n, E>>
-Init == n \in 1..MaxN /\ E \in AllDAGs(NodeSet(n))
-Next == UNCHANGED vars
+\* all DAGs per node count, computed once (constant level; "@@ <<>>" makes TLC store the function explicitly)
+DAGTab == [k \in 1..MaxN |-> AllDAGs(NodeSet(k))] @@ <<>>
 
-Class(N, G) == {G2 \in AllDAGs(N) : IEquivalent(G, G2)}
+VARIABLES n, E, ph
+vars == <<n, E, ph>>
+\* ph = 0 -> 1: the invariants do their (heavy) work on the ph = 1 states, which TLC's workers evaluate in parallel
+Init == n \in 1..MaxN /\ E \in DAGTab[n] /\ ph = 0
+Visit == ph = 0 /\ ph' = 1 /\ UNCHANGED <<n, E>>
+Next == Visit
+
+Class(k, G) == {G2 \in DAGTab[k] : IEquivalent(G, G2)}
 Families(N, G) == {[v |-> v, ps |-> Pa(G, v)] : v \in N}
 
-ClassLemmas ==
+ClassLemmas == ph = 1 =>
     LET N == NodeSet(n)
-        C == Class(N, E) IN
+        C == Class(n, E) IN
     /\ E \in C
+    /\ C = {G \in DAGTab[n] : <<Skeleton(G), VStructs(G)>> = <<Skeleton(E), VStructs(E)>>}
     /\ \A G \in C : Cardinality(G) = Cardinality(E)
-    /\ \A G \in C : Class(N, G) = C
     /\ \A G \in C : LogPrior([t |-> "bds", ess |-> 1], n, Cardinality(G)) = LogPrior([t |-> "bds", ess |-> 1], n, Cardinality(E))
-    /\ (n <= SameDSepMaxN => \A G \in AllDAGs(N) : (G \in C) <=> SameDSep(N, E, G))
+    /\ (n <= SameDSepMaxN => \A G \in DAGTab[n] : (G \in C) <=> SameDSep(N, E, G))
 
-Emit == PrintT(ToJson([n |-> n, edges |-> E, fams |-> Families(NodeSet(n), E),
+Emit == ph = 1 => PrintT(ToJson([n |-> n, edges |-> E, fams |-> Families(NodeSet(n), E),
                        prior_bds |-> FJson(LogPrior([t |-> "bds", ess |-> 1], n, Cardinality(E))),
-                       cls |-> Class(NodeSet(n), E)]))
+                       cls |-> Class(n, E)]))
 =============================================================================
